@@ -252,3 +252,19 @@ PROPS["C14"] = dict(
          "every case distinct by its arguments",
     exhaustive_note="decision tables enumerated completely for norb=2",
 )
+
+PROPS["C18"] = dict(
+    level="proof",
+    technique="Lean 4 theorems about the outer-loop control flow (a returned answer comes from an iteration >= 1 that passed "
+              "the convergence test within the size limit; all earlier iterations failed it) + correspondence of returned "
+              "eigenpairs against exact spectra (numpy eigh of given matrices / of the exact Spec matrix of FQE Hamiltonians)",
+    text="Control flow proved on the model: the loop can only return a converged iteration, otherwise it ends in "
+         "ConvergenceError. On the real routines: plain matrices (generic, diagonally dominant, degenerate, complex Hermitian) "
+         "and FQE restricted Hamiltonians whose sector matrix is produced exactly by the Spec driver; a returned result must "
+         "be the lowest eigenvalues to 1e-6 with normalised vectors and small residual; raising ConvergenceError is accepted.",
+    note="Lean kernel; accuracy of an iterative method is not a theorem here (partial): 'lowest eigenpairs' is decided against "
+         "numpy.linalg.eigh (trusted) on dimensions <= 20; the Ritz/residual bounds are not formalised.",
+    design_ref="DESIGN.md §5 C18",
+    rule="cases = random Hermitian matrices by family x nroots, random restricted Hamiltonians by (norb, nalpha, nbeta); "
+         "every case distinct by index",
+)
